@@ -28,7 +28,7 @@ P = {
  "C06": ("proptest over transaction records x keys against a reference transaction model, strict canonical RLP decode and sender recovery",
          "Exploration: kind rule, signing digest and signed bytes equal the reference for every generated record; strict decoder returns every field unchanged; v/yParity formula; recovered sender equals the signer.",
          "Legacy chain ids are capped at c_max here (C11 covers the rest)."),
- "C07": ("exhaustive calldata-length / integer-width / list-size sweeps through the public API with a strict canonical RLP decoder; hook sweep of the length-header function over every length below 2^17 (2^25 thorough)",
+ "C07": ("exhaustive calldata-length / integer-width / list-size sweeps through the public API with a strict canonical RLP decoder; hook sweep of the length-header function over every length below 2^21 (2^26 thorough)",
          "Exploration with exhaustive parts: every calldata length 0..1100, every single byte, every integer width 0..32 in every field, access-list payloads around each boundary decode strictly to the original; header function equals the reference for every length in the swept range.",
          "Strict decoder is the canonicity oracle (unit-tested in the harness)."),
  "C08": ("tape-decoded generation of type graphs + conforming values against an AST-based EIP-712 reference; hook: encodeType string equality and exhaustive member-type grammar sweep",
